@@ -94,6 +94,8 @@ func (e *Engine) lookupMethod(recv Iface, m *types.Func) Value {
 		return specialMethod{"aesBlock." + m.Name()}
 	case *ctxStub:
 		return specialMethod{"ctxStub." + m.Name()}
+	case *hashStub:
+		return specialMethod{"hashStub." + m.Name()}
 	}
 	ms := e.prog.MethodSets.MethodSet(recv.T)
 	sel := ms.Lookup(m.Pkg(), m.Name())
